@@ -88,6 +88,8 @@ impl Check for C15 {
             })
             .collect();
         json!({"net": net, "mode": mode, "rounds": rounds, "v6": g.chance(20), "port": *g.pick(&[53u64, 1, 65_535, 5353, 40_000]),
+            // system mode: the application continues from a new socket before this round
+            "rebind_before_round": if g.chance(30) { json!(g.range(1, 4)) } else { Value::Null },
             // handler mode: how the script cuts the byte stream into PSH frames
             "cut_seeds": (0..g.range(0, 12)).map(|_| g.next() % 1_000_000).collect::<Vec<_>>(), "one_byte_frames": g.chance(8),
             // handler mode: the peer (or the network) stalls for this long after the frame that ends at a seeded
@@ -123,11 +125,20 @@ impl Check for C15 {
                         return out;
                     }
                 };
-                let Ok(app) = UdpSocket::bind("127.0.0.1:0").await else { return out };
+                let Ok(mut app) = UdpSocket::bind("127.0.0.1:0").await else { return out };
                 let mut server_side: Option<SocketAddr> = None;
                 let mut tag = 0u64;
+                let rebind_at = plan["rebind_before_round"].as_u64();
                 for (ri, r) in rounds.iter().enumerate() {
                     let up: Vec<Vec<u8>> = u64s(&r["up"]).iter().map(|s| { tag += 1; content(0xC15 ^ (tag << 8), *s as usize) }).collect();
+                    if rebind_at == Some(ri as u64) && !up.is_empty() {
+                        // the application comes back from another source port (restart, new socket): from its next
+                        // datagram on, the replies belong to the new address
+                        drop(app);
+                        let Ok(a2) = UdpSocket::bind("127.0.0.1:0").await else { return out };
+                        app = a2;
+                        anytls_simnet::world::probe("c15.application_rebound");
+                    }
                     for d in &up {
                         let _ = app.send_to(d, local).await;
                     }
@@ -312,7 +323,7 @@ impl Check for C15 {
         out
     }
     fn rule(&self) -> &'static str {
-        "one case = 1-6 rounds of 0-3 datagrams towards the target and 0-3 replies, sizes from {1,2,3,254-258,1471-1473,8190-8194,65000,65505-65507,random}, IPv4 or IPv6 target, boundary ports; mode system (55%): application socket through the real Client::create_udp_proxy, real sessions over rustls, real Server and handle_udp_over_tcp to a simulated target socket; mode handler (45%): the real handle_udp_over_tcp behind a real server Session fed by a scripted peer that cuts the length-prefixed byte stream into PSH frames at seeded offsets (always inside the first prefix, sometimes one byte per frame) over a fragmenting transport, in 40% of the cases with 1-3 pauses of 1 ms .. 70 s after the frame ending at a seeded cut (the rest of a half-delivered datagram arrives much later); simulated UDP is lossless and ordered so every missing, merged, split or altered datagram is the tunnel's doing; non-trivial = at least one datagram was exchanged; distinct = distinct (plan hash, poll-order fingerprint)"
+        "one case = 1-6 rounds of 0-3 datagrams towards the target and 0-3 replies, sizes from {1,2,3,254-258,1471-1473,8190-8194,65000,65505-65507,random}, IPv4 or IPv6 target, boundary ports; mode system (55%): application socket through the real Client::create_udp_proxy, real sessions over rustls, real Server and handle_udp_over_tcp to a simulated target socket, in 30% of the cases the application continues from a new socket (new source port) before a seeded round and the replies must follow it; mode handler (45%): the real handle_udp_over_tcp behind a real server Session fed by a scripted peer that cuts the length-prefixed byte stream into PSH frames at seeded offsets (always inside the first prefix, sometimes one byte per frame) over a fragmenting transport, in 40% of the cases with 1-3 pauses of 1 ms .. 70 s after the frame ending at a seeded cut (the rest of a half-delivered datagram arrives much later); simulated UDP is lossless and ordered so every missing, merged, split or altered datagram is the tunnel's doing; non-trivial = at least one datagram was exchanged; distinct = distinct (plan hash, poll-order fingerprint)"
     }
     fn real_components(&self) -> Vec<&'static str> {
         vec!["Client::create_udp_proxy / udp_proxy_loop / encode_udp_packet / read_udp_packet (client)", "handle_udp_over_tcp / read_initial_request / stream_to_udp / udp_to_stream (server)", "Session, Stream, StreamReader::read_exact, codec, padding, rustls (system mode)"]
